@@ -8,7 +8,7 @@ use unicode_width::UnicodeWidthChar;
 use crate::explore::{bfs, run_op, sweep, Base, Local, Trans};
 use crate::judge::*;
 use crate::ops::{apply, build, Op, P};
-use crate::props::{gen_bases, geoms, with_poison, Guard};
+use crate::props::{gen_bases, geoms, large_bases, with_poison, Guard};
 use crate::refscreen::{compare, fresh, Comp, Model, ALL_COMPS, DECCOLM};
 use crate::report::{Collector, Violation};
 use crate::seeds::*;
@@ -103,8 +103,8 @@ pub fn full_alphabet(c: u32, l: u32) -> Vec<Op> {
     ] {
         v.push(Op::Sgr(a));
     }
-    for ll in 1..=(l + 2) {
-        for cc in 1..=(c + 2) {
+    for ll in size_dom(l) {
+        for cc in size_dom(c) {
             v.push(Op::Resize(Some(ll), Some(cc)));
         }
     }
@@ -240,6 +240,11 @@ pub fn c09(c: &Collector, g: &mut Guard) {
             }
         },
     );
+    let lb = large_bases(c, vec![Fill::F0, Fill::F1]);
+    sweep(c, &lb, |b| full_alphabet(b.columns, b.lines), |c, t, local| {
+        local.count("large_geometry_transitions");
+        invariant(c, "C09", "E2.depth1.large", t, local);
+    });
     let depth = if c.thorough() { 4 } else { 3 };
     for gg in [(3u32, 2u32), (4, 3)] {
         if gg == (4, 3) && !c.thorough() {
@@ -424,6 +429,20 @@ pub fn c10(c: &Collector, g: &mut Guard) {
             }
         },
     );
+    let lb = large_bases(c, vec![Fill::F0, Fill::F1, Fill::F7]);
+    sweep(c, &lb, |_| vec![Op::Display], |c, t, local| {
+        local.count("large_geometry_transitions");
+        if let Ok((_, post, Some(d))) = t.outcome {
+            if let Some(m) = check_display(t.pre, d) {
+                viol(c, "C10", "E2.display.large", t, "mismatch:rendering", m);
+            }
+            if post != t.pre {
+                viol(c, "C10", "E2.display.large", t, "impure:state-changed", "display() changed the observable state".into());
+            }
+        } else if let Err(m) = t.outcome {
+            viol(c, "C10", "E2.display.large", t, &format!("panic:{}", panic_class(m)), format!("display() panicked: {}", m));
+        }
+    });
     // (3) histories with display interposed at every subset of positions: BFS where display is an
     // ordinary op; dedup on the full key keeps absent/materialised variants apart; every transition
     // out of both variants is compared with the same model.
@@ -602,6 +621,11 @@ pub fn c15(c: &Collector, g: &mut Guard) {
             c15_compare(c, t, e, local, depth);
         },
     );
+    let lb = large_bases(c, vec![Fill::F0, Fill::F1]);
+    sweep(c, &lb, |_| vec![Op::Reset, Op::Feed(vec!["\x1bc".into()], true)], |c, t, local| {
+        local.count("large_geometry_transitions");
+        c15_compare(c, t, "E2.reset.large", local, 1);
+    });
     // tab-stop edits on widths that have default stops: every set of at most 3 stops
     let mut tb: Vec<Base> = Vec::new();
     for w in [9u32, 12, 17] {
@@ -803,6 +827,15 @@ pub fn c17(c: &Collector, g: &mut Guard) {
             c17_judge(c, t, "E2.depth1.full", local);
         },
     );
+    let mut lb = large_bases(c, vec![Fill::F0, Fill::F1]);
+    for b in lb.iter_mut() {
+        b.screen.dirty.clear();
+        b.script.push(Op::ClearDirty);
+    }
+    sweep(c, &lb, |b| full_alphabet(b.columns, b.lines), |c, t, local| {
+        local.count("large_geometry_transitions");
+        c17_judge(c, t, "E2.depth1.large", local);
+    });
     // histories: dirty cleared between steps (ClearDirty is an op), shrinks included
     let depth = if c.thorough() { 4 } else { 3 };
     let mut seeds = small_bfs_seeds(c, (3, 2));
@@ -856,7 +889,7 @@ fn tab_ops() -> Vec<Op> {
 pub fn c18(c: &Collector, g: &mut Guard) {
     // (1) defaults for every width, after construction and after reset
     let maxw = 140u32;
-    for w in 1..=maxw {
+    for w in (1..=maxw).chain([248, 255, 256, 257, 264, 265, 300, 1000]) {
         let exp: Vec<u32> = (1..).map(|k| 8 * k).take_while(|s| *s < w).collect();
         for variant in 0..3 {
             let script: Vec<Op> = match variant {
@@ -932,8 +965,16 @@ pub fn c18(c: &Collector, g: &mut Guard) {
         }
     }
     // larger widths: default, empty, full, singletons, pairs from the edge set
-    for w in [13u32, 16, 17, 24, 80, 132, 140] {
-        let edge: Vec<u32> = vec![0, 1, 7, 8, 9, w - 2, w - 1];
+    for w in [13u32, 16, 17, 24, 80, 132, 140, 255, 256, 257, 264, 300] {
+        let mut edge: Vec<u32> = vec![0, 1, 7, 8, 9, w - 2, w - 1];
+        if w > 250 {
+            edge.extend([127, 128, 254]);
+            if w > 256 {
+                edge.extend([255, 256]);
+            }
+            edge.sort_unstable();
+            edge.dedup();
+        }
         let mut sets: Vec<Option<Vec<u32>>> = vec![None, Some(vec![]), Some((0..w).collect())];
         for a in &edge {
             sets.push(Some(vec![*a]));
@@ -956,7 +997,17 @@ pub fn c18(c: &Collector, g: &mut Guard) {
                 Ok(s) => s,
                 Err(_) => continue,
             };
-            let xs: Vec<u32> = if c.thorough() { (0..=w).collect() } else { vec![0, 1, 6, 7, 8, 9, 15, 16, w / 2, w - 2, w - 1, w] };
+            let xs: Vec<u32> = if c.thorough() && w <= 140 {
+                (0..=w).collect()
+            } else {
+                let mut v = vec![0, 1, 6, 7, 8, 9, 15, 16, w / 2, w - 2, w - 1, w];
+                if w > 250 {
+                    v.extend([126, 127, 128, 253, 254, 255, 256, 257].iter().filter(|x| **x <= w));
+                }
+                v.sort_unstable();
+                v.dedup();
+                v
+            };
             for x in xs {
                 let mut s = s0.clone();
                 let mut sc = script.clone();
@@ -1186,6 +1237,16 @@ pub fn c14(c: &Collector, g: &mut Guard) {
             refine_all(c, "C14", "E2.depth1", t, local);
         },
     );
+    let lb = large_bases(c, vec![Fill::F0]);
+    sweep(
+        c,
+        &lb,
+        |_| vec![Op::SaveCursor, Op::RestoreCursor, Op::Feed(vec!["\x1b7\x1b[H\x1b8".into()], true), Op::Feed(vec!["\x1b7\x1b[9999;9999H\x1b[1m\x1b8".into()], true)],
+        |c, t, local| {
+            local.count("large_geometry_transitions");
+            refine_all(c, "C14", "E2.depth1.large", t, local);
+        },
+    );
     // every other operation leaves the stack unchanged
     let fb: Vec<Base> = bases.iter().filter(|b| !b.screen.savepoints.is_empty()).step_by(5).cloned().collect();
     sweep(
@@ -1341,6 +1402,25 @@ pub fn c12(c: &Collector, g: &mut Guard) {
         },
         |c, t, local| {
             refine_all(c, "C12", "E4.numbers", t, local);
+        },
+    );
+    let lb = large_bases(c, vec![Fill::F0, Fill::F1]);
+    sweep(
+        c,
+        &lb,
+        |_| {
+            let mut v = Vec::new();
+            for n in [3u32, 4, 5, 6, 7, 20, 25, 255, 256, 257, 4095, 9999] {
+                for private in [false, true] {
+                    v.push(Op::Sm(vec![n], private));
+                    v.push(Op::Rm(vec![n], private));
+                }
+            }
+            v
+        },
+        |c, t, local| {
+            local.count("large_geometry_transitions");
+            refine_all(c, "C12", "E4.large", t, local);
         },
     );
     // lists of length 1..3 over the supported modes + 2 unsupported, both spellings; repeated set/reset
@@ -1519,8 +1599,8 @@ pub fn c16(c: &Collector, g: &mut Guard) {
         &bases,
         |b| {
             let mut v = Vec::new();
-            for ll in 1..=(b.lines + 2) {
-                for cc in 1..=(b.columns + 2) {
+            for ll in size_dom(b.lines) {
+                for cc in size_dom(b.columns) {
                     v.push(Op::Resize(Some(ll), Some(cc)));
                 }
             }
@@ -1533,6 +1613,24 @@ pub fn c16(c: &Collector, g: &mut Guard) {
         },
         |c, t, local| {
             c16_judge(c, t, "E2.depth1", local);
+        },
+    );
+    let lb = large_bases(c, vec![Fill::F0, Fill::F1]);
+    sweep(
+        c,
+        &lb,
+        |b| {
+            let mut v = Vec::new();
+            for ll in size_dom(b.lines) {
+                for cc in size_dom(b.columns) {
+                    v.push(Op::Resize(Some(ll), Some(cc)));
+                }
+            }
+            v
+        },
+        |c, t, local| {
+            local.count("large_geometry_transitions");
+            c16_judge(c, t, "E2.depth1.large", local);
         },
     );
     // sequences of resizes interleaved with the residue makers
